@@ -814,6 +814,16 @@ class Inliner:
             blockstmts = blockstmts + lowered
             for s in blockstmts:
                 self._mark(s, name, call)
+            # a function handed over as an argument (`default_name=_number_name`) is called inside the helper: once the
+            # parameter is replaced by the function's name those calls can be expanded in their turn
+            fn_args = [v for v in binding.values() if (isinstance(v, ast.Name) and v.id in self.by_name) or
+                       (isinstance(v, ast.Attribute) and v.attr in self.by_name)]
+            if fn_args and ctx.get('reexp', 0) < 2:
+                ctx2 = dict(ctx, reexp=ctx.get('reexp', 0) + 1)
+                again = []
+                for s in blockstmts:
+                    again.extend(self.stmt(s, ctx2))
+                blockstmts = again
             self.stats['expanded'] += 1
             self.expanded_callees.add(id(callee))
             if want_value:
